@@ -37,6 +37,7 @@ Record validator := { v_addr : N; v_power : Z; v_prio : Z }.
 Record valset := { vs_vals : list validator; vs_prop : validator }.
 
 Record blockid := { b_hash : N; b_total : N; b_phash : N }.
+Definition bid_zero : blockid := {| b_hash := 0; b_total := 0; b_phash := 0 |}.
 
 (** cstate.LatestBlockState *)
 Record cstate := {
@@ -138,7 +139,9 @@ Definition from_proto (vs : valset) : option valset :=
 Inductive pclass := PNil | PNoMeta | PBadSet | PNoParams.
 Inductive lres := LPanic (c : pclass) | LEmpty | LOk (s : cstate).
 
-(** the three reads of loadStateAtHeight: a missing record is dereferenced (nil pointer),
+(** loadStateAtHeight.  The block id is taken from the block meta only above height 0 (fix
+    12b60d8: the genesis state keeps the zero id that MakeGenesisState gave it).
+    The three reads of validator records: a missing record is dereferenced (nil pointer),
     a record without / with an invalid set makes ValidatorSetFromProto fail (panic(err)) *)
 Definition read_set (d : db) (k : N) : pclass + (valset * N) :=
   match get k (d_vi d) with
@@ -179,7 +182,8 @@ Definition load_at (d : db) (h : N) : lres :=
             | Some p =>
               LOk {| chain_id := r_chain r; initial_height := ih;
                      last_height := m_height m; last_total_tx := m_ntx m;
-                     last_bid := m_bid m; last_time := m_time m;
+                     last_bid := if N.ltb 0 h then m_bid m else bid_zero;
+                     last_time := m_time m;
                      next_vals := nv; vals := cv; last_vals := lv;
                      lhvc := nlhc; lhcpc := pi_lhc p; app_hash := app;
                      params := pi_params p |}
